@@ -22,7 +22,7 @@ var c10Entries = map[string]func(b []byte, p int) interface{}{
 	"ReadTuples":     func(b []byte, p int) interface{} { return c10r(pgdump.ReadTuples(b, p%2 == 0)) },
 	"ParseFile":      func(b []byte, p int) interface{} { return c10r(pgdump.ParseFile(b)) },
 	"ReadRows": func(b []byte, p int) interface{} {
-		return c10r(pgdump.ReadRows(b, []pgdump.Column{{Name: "a", TypID: pgdump.OidInt4, Len: 4, Align: 'i'}, {Name: "b", TypID: p, Len: -1, Align: 'i'}, {Name: "c", TypID: pgdump.OidName, Len: 64, Align: 'c'}}, p%2 == 0))
+		return c10r(pgdump.ReadRows(b, c10cols([]pgdump.Column{{Name: "a", TypID: pgdump.OidInt4, Len: 4, Align: 'i'}, {Name: "b", TypID: p, Len: -1, Align: 'i'}, {Name: "c", TypID: pgdump.OidName, Len: 64, Align: 'c'}}), p%2 == 0))
 	},
 	"ReadVarlena": func(b []byte, p int) interface{} { return c10r(pgdump.ReadVarlena(b)) },
 	"DecodeTuple": func(b []byte, p int) interface{} {
@@ -31,7 +31,7 @@ var c10Entries = map[string]func(b []byte, p int) interface{}{
 			bm = bm[:3:3]
 		}
 		return c10r(pgdump.DecodeTuple(&pgdump.HeapTupleData{Header: &pgdump.HeapTupleHeader{Natts: p % 7, HasNull: p%2 == 0}, Bitmap: bm, Data: b},
-			[]pgdump.Column{{Name: "a", TypID: p, Len: -1, Align: 'i'}, {Name: "b", TypID: p, Len: p % 40, Align: byte(p)}, {Name: "c", TypID: pgdump.OidText, Len: -2, Num: 9}, {Name: "d", TypID: p, Len: -1, Align: 'd'}}))
+			c10cols([]pgdump.Column{{Name: "a", TypID: p, Len: -1, Align: 'i'}, {Name: "b", TypID: p, Len: p % 40, Align: byte(p)}, {Name: "c", TypID: pgdump.OidText, Len: -2, Num: 9}, {Name: "d", TypID: p, Len: -1, Align: 'd'}})))
 	},
 	"ParsePGDatabase":     func(b []byte, p int) interface{} { return c10r(pgdump.ParsePGDatabase(b)) },
 	"ParsePGClass":        func(b []byte, p int) interface{} { return c10r(pgdump.ParsePGClass(b)) },
@@ -127,10 +127,10 @@ var c10Entries = map[string]func(b []byte, p int) interface{}{
 		return len(w.Bytes()) // the SQL text carries a generation timestamp; its length does not
 	},
 	"ReadDeletedRows": func(b []byte, p int) interface{} {
-		return c10r(pgdump.ReadDeletedRows(b, []pgdump.Column{{Name: "a", TypID: p, Len: -1, Align: 'i'}}))
+		return c10r(pgdump.ReadDeletedRows(b, c10cols([]pgdump.Column{{Name: "a", TypID: p, Len: -1, Align: 'i'}})))
 	},
 	"ReadRowsWithDeleted": func(b []byte, p int) interface{} {
-		return c10r(pgdump.ReadRowsWithDeleted(b, []pgdump.Column{{Name: "a", TypID: pgdump.OidInt4, Len: 4, Align: 'i'}, {Name: "b", TypID: p, Len: -1, Align: 'i'}}))
+		return c10r(pgdump.ReadRowsWithDeleted(b, c10cols([]pgdump.Column{{Name: "a", TypID: pgdump.OidInt4, Len: 4, Align: 'i'}, {Name: "b", TypID: p, Len: -1, Align: 'i'}})))
 	},
 	"parseBlockRefs":  func(b []byte, p int) interface{} { return c10r(pgdump.VerifParseBlockRefs(b)) },
 	"parseWALPage":    func(b []byte, p int) interface{} { return c10r(pgdump.VerifParseWALPage(b, uint64(p), p%3)) },
@@ -163,6 +163,31 @@ var c10Entries = map[string]func(b []byte, p int) interface{}{
 
 // c10r collects the (possibly several) results of a call
 func c10r(vals ...interface{}) interface{} { return vals }
+
+// schemas handed to entry points are inputs too: c10cols registers each one with a copy, c10colsChanged compares and
+// empties the registry ("never modifies the input"; seeded change C10-17: DecodeTuple wrote defaulted attribute numbers
+// back into the caller's columns)
+type c10colSnap struct{ live, copy []pgdump.Column }
+
+var c10colReg []c10colSnap
+
+func c10cols(cols []pgdump.Column) []pgdump.Column {
+	c10colReg = append(c10colReg, c10colSnap{cols, append([]pgdump.Column(nil), cols...)})
+	return cols
+}
+
+func c10colsChanged() bool {
+	bad := false
+	for _, s := range c10colReg {
+		for i := range s.copy {
+			if s.live[i] != s.copy[i] {
+				bad = true
+			}
+		}
+	}
+	c10colReg = c10colReg[:0]
+	return bad
+}
 
 // deepStr renders any result structurally (pointers followed, map keys sorted, floats by bits, errors by text),
 // so that two runs can be compared for equality
@@ -297,6 +322,9 @@ func c10Sweep(f func(b []byte, p int) interface{}, v []byte, p int, mode string)
 		if !bytes.Equal(snap, buf) {
 			return "MUTATED-INPUT-on-" + what
 		}
+		if c10colsChanged() {
+			return "MUTATED-INPUT-schema-on-" + what
+		}
 		return ""
 	}
 	switch mode {
@@ -400,9 +428,13 @@ func init() {
 			var m0, m1 runtime.MemStats
 			runtime.ReadMemStats(&m0)
 			t0 := time.Now()
+			c10colsChanged()
 			r1 := f(b, p)
 			el := time.Since(t0)
 			runtime.ReadMemStats(&m1)
+			if c10colsChanged() {
+				return "MUTATED-INPUT-schema"
+			}
 			// the result must be a function of the len bytes only: run again on a copy whose spare capacity holds
 			// the complemented tail plus 24 further bytes, and on an exact-size copy (cap = len)
 			tl := b[len(b):cap(b)]
